@@ -5,7 +5,13 @@
    mode c06v: "<hex512> <total_sectors> <chosen bits> <requested 12|16|32|->"
        -> "valid" | "violated <clause> <clause> ..."       (extracted Spec.FormatSpec.boot_violations on the
           deserialized sector; clause numbers as in FormatSpec.fmt_clauses, 12 = boot frame)
-   mode c06g: "<hex512>" -> "<bps> <spc> <reserved> <fats> <root_entries> <total> <spf> <clusters> <meta>"  (decoded geometry) *)
+   mode c06g: "<hex512>" -> "<bps> <spc> <reserved> <fats> <root_entries> <total> <spf> <clusters> <meta>"  (decoded geometry)
+   mode c06i: the c06 request followed by "<fill byte> <off:len:byte,...|->": Model/FormatImage.v format_image on the device
+       image `fill` + the listed fillranges
+       -> "ok <fatbits> <page off>:<md5> ..." (every 4096-byte page of the resulting image holding a byte other than the fill
+          byte, ascending; same notion as the executor's `pages`) | "err <Variant> <pages...>" (pages of the untouched
+          image) | "panic" | "outoffuel"
+   mode c06ix: the c06i line followed by "<page off>" -> hex of that page of the resulting image (for locating a difference) *)
 open Conv
 
 let ft_of_string = function
@@ -63,3 +69,75 @@ let gline (t : string list) : string =
         b.Format.fb_root_entries; FormatSpec.sp_total_sectors b; FormatSpec.sp_fat_size b; FormatSpec.sp_clusters b;
         FormatSpec.sp_meta_sectors b ])
   | _ -> "bad"
+
+(* ---------------------------------------------------------------- format_image *)
+let initial_image (fill : string) (ranges : string) : Image.image =
+  let im = ref (Image.img_empty (n_of_string fill)) in
+  if ranges <> "-" then
+    Stdlib.List.iter (fun r ->
+      match String.split_on_char ':' r with
+      | [off; len; b] -> im := FormatImage.img_fillrange !im (n_of_string off) (n_of_string len) (n_of_string b)
+      | _ -> ()) (String.split_on_char ',' ranges);
+  !im
+
+(* pages (4096 bytes) of an image that hold at least one byte different from the fill byte *)
+let pages_of (im : Image.image) : (int * Bytes.t) list =
+  let fill = int_of_n im.Image.img_fill in
+  let tbl : (int, Bytes.t) Hashtbl.t = Hashtbl.create 1024 in
+  Stdlib.List.iter (fun (k, v) ->
+    let off = int_of_pos k - 1 in
+    let pg = off / 4096 in
+    let b = (match Hashtbl.find_opt tbl pg with
+             | Some b -> b
+             | None -> let b = Bytes.make 4096 (Char.chr fill) in Hashtbl.add tbl pg b; b) in
+    Bytes.set b (off mod 4096) (Char.chr (int_of_n v land 255))) (FormatImage.img_bindings im);
+  let l = Hashtbl.fold (fun pg b acc ->
+    let differs = ref false in
+    Bytes.iter (fun c -> if Char.code c <> fill then differs := true) b;
+    if !differs then (pg * 4096, b) :: acc else acc) tbl [] in
+  Stdlib.List.sort compare l
+
+let pages_digest (im : Image.image) : string =
+  String.concat " " (Stdlib.List.map (fun (off, b) -> Printf.sprintf "%d:%s" off (Digest.to_hex (Digest.bytes b))) (pages_of im))
+
+let split_image_line (t : string list) : (string list * string * string * string list) option =
+  match t with
+  | a :: b :: c :: d :: e :: f :: g :: h :: i :: fill :: ranges :: rest -> Some ([a; b; c; d; e; f; g; h; i], fill, ranges, rest)
+  | _ -> None
+
+let run_image (t : string list) =
+  match split_image_line t with
+  | None -> None
+  | Some (req, fill, ranges, rest) ->
+    (match options_of req with
+     | None -> None
+     | Some (o, ts) ->
+       let im0 = initial_image fill ranges in
+       Some (o, ts, im0, FormatImage.format_image o ts im0, rest))
+
+let iline (t : string list) : string =
+  match run_image t with
+  | None -> "bad"
+  | Some (o, ts, im0, r, _) ->
+    (match r with
+     | Base.Ok im ->
+       let bits = (match Format.format_boot_sector_validated o ts with
+                   | Base.Ok (_, ft) -> string_of_n (Format.bits_per_fat_entry ft) | _ -> "?") in
+       Printf.sprintf "ok %s %s" bits (pages_digest im)
+     | Base.Err e -> Printf.sprintf "err %s %s" (err_name e) (pages_digest im0)
+     | Base.Panic -> "panic"
+     | Base.OutOfFuel -> "outoffuel")
+
+let ixline (t : string list) : string =
+  match run_image t with
+  | None -> "bad"
+  | Some (_, _, im0, r, rest) ->
+    let im = (match r with Base.Ok im -> im | _ -> im0) in
+    (match rest with
+     | [pg] ->
+       let off = int_of_string pg in
+       let fill = int_of_n im.Image.img_fill in
+       (match Stdlib.List.assoc_opt off (pages_of im) with
+        | Some b -> String.concat "" (Stdlib.List.map (fun c -> Printf.sprintf "%02x" (Char.code c)) (Stdlib.List.of_seq (Bytes.to_seq b)))
+        | None -> String.concat "" (Stdlib.List.init 4096 (fun _ -> Printf.sprintf "%02x" fill)))
+     | _ -> "bad")
